@@ -80,6 +80,8 @@ static int (*real_clock_gettime)(clockid_t, struct timespec *);
 static ssize_t (*real_getrandom)(void *, size_t, unsigned int);
 static long (*real_syscall)(long, ...);
 static char *(*real_getcwd)(char *, size_t);
+static char *(*real_getenv)(const char *);
+static __thread int t_clock_sim;
 
 /* ------------------------------------------------------------------ state */
 static pthread_mutex_t g_lock = PTHREAD_MUTEX_INITIALIZER;
@@ -110,11 +112,11 @@ static struct fdinfo g_fds[MAXFD];
 
 enum kind {
   K_OPENR, K_OPENW, K_OPENDIR, K_READ, K_WRITE, K_READDIR, K_SHORT_READ, K_SHORT_WRITE,
-  K_EINTR_READ, K_EINTR_WRITE, K_EINTR_OPEN, K_CLOCKJUMP, K_CRASH, K_RENAME, K_STATSIZE, K_TTY, K_DEVNO, K_FLOCK, K_SIGNAL, K_GETCWD, K_NKINDS
+  K_EINTR_READ, K_EINTR_WRITE, K_EINTR_OPEN, K_CLOCKJUMP, K_CRASH, K_RENAME, K_STATSIZE, K_TTY, K_DEVNO, K_FLOCK, K_SIGNAL, K_GETCWD, K_THREAD, K_EAGAIN_READ, K_NKINDS
 };
 static const char *kind_names[] = {"openr", "openw", "opendir", "read", "write", "readdir",
                                    "short_read", "short_write", "eintr_read", "eintr_write",
-                                   "eintr_open", "clockjump", "crash", "rename", "statsize", "tty", "devno", "flock", "signal", "getcwd"};
+                                   "eintr_open", "clockjump", "crash", "rename", "statsize", "tty", "devno", "flock", "signal", "getcwd", "thread", "eagain_read"};
 struct rule {
   int kind;
   char sel[RELMAX];
@@ -173,7 +175,7 @@ static void resolve_syms(void) {
   R(open64); R(openat64); R(read); R(pread64); R(readv); R(write); R(pwrite64); R(writev);
   R(close); R(lseek64); R(opendir); R(fdopendir); R(readdir64); R(closedir); R(rename);
   R(renameat); R(unlink); R(unlinkat); R(truncate64); R(ftruncate64); R(mkdir); R(symlink);
-  R(link); R(clock_gettime); R(getrandom); R(syscall); R(getcwd);
+  R(link); R(clock_gettime); R(getrandom); R(syscall); R(getcwd); R(getenv);
 #undef R
 }
 
@@ -209,7 +211,7 @@ static void parse_plan(const char *plan) {
     if (when[0] == '+') { r->by_offset = 1; r->when = atol(when + 1); }
     else r->when = atol(when);
     switch (r->kind) {
-      case K_SHORT_READ: case K_SHORT_WRITE: case K_CLOCKJUMP: case K_CRASH: case K_STATSIZE: case K_TTY: case K_DEVNO: case K_SIGNAL:
+      case K_SHORT_READ: case K_SHORT_WRITE: case K_CLOCKJUMP: case K_CRASH: case K_STATSIZE: case K_TTY: case K_DEVNO: case K_SIGNAL: case K_EAGAIN_READ:
         r->arg = atol(arg); break;
       case K_EINTR_READ: case K_EINTR_WRITE: case K_EINTR_OPEN:
         r->arg = EINTR; break;
@@ -471,6 +473,21 @@ static size_t transfer_gate(int fd, size_t len, int is_write, int *err, int *rul
   if (is_write) f->calls_w++; else f->calls_r++;
   if (f->sticky_errno && ((f->sticky_rule >= 0) && (g_rules[f->sticky_rule].kind == (is_write ? K_WRITE : K_READ)))) {
     *err = f->sticky_errno; *rule = f->sticky_rule; return 0;
+  }
+  /* `eagain_read:<sel>:n:k`: from the n-th read of a matching descriptor on, k reads in a row
+   * answer EAGAIN (a non-blocking descriptor whose writer stalls); every one of them also lets
+   * 100 ms of simulated time pass. Afterwards the data flows again. */
+  if (!is_write) {
+    for (int i = 0; i < g_nrules; i++) {
+      struct rule *r = &g_rules[i];
+      if (r->kind != K_EAGAIN_READ || !sel_match(r, f->rel)) continue;
+      r->hits++;
+      if (r->hits >= r->when && r->hits < r->when + r->arg) {
+        r->fired = 1;
+        g_clock_jump += 100000000LL;
+        *err = EAGAIN; *rule = i; return 0;
+      }
+    }
   }
   int ri = nth_rule(is_write ? K_EINTR_WRITE : K_EINTR_READ, f->rel);
   if (ri >= 0) { *err = EINTR; *rule = ri; return 0; }
@@ -845,6 +862,37 @@ int flock(int fd, int op) {
   return real_flock ? real_flock(fd, op) : -1;
 }
 
+/* ------------------------------------------------------------------ thread creation
+ * `thread:*:1:EAGAIN` (world process) / VSIM_NOTHREADS=1 (engine B, only from inside a library
+ * call): pthread_create fails, as under an address-space limit, RLIMIT_NPROC or a pids cgroup.
+ * A program that wanted a helper thread has to do without or report the failure - not pretend
+ * the work was done. */
+static int (*real_pthread_create)(pthread_t *, const pthread_attr_t *, void *(*)(void *), void *);
+static int g_nothreads = -1;
+int pthread_create(pthread_t *t, const pthread_attr_t *a, void *(*fn)(void *), void *arg) {
+  vsim_init();
+  if (!real_pthread_create) real_pthread_create = dlsym(RTLD_NEXT, "pthread_create");
+  if (g_world) {
+    for (int i = 0; i < g_nrules; i++) {
+      struct rule *ru = &g_rules[i];
+      if (ru->kind != K_THREAD) continue;
+      pthread_mutex_lock(&g_lock);
+      event_begin("thread", "-");
+      ru->fired = 1;
+      trace_line("thread", "-", 0, -1, (int)ru->arg, i);
+      pthread_mutex_unlock(&g_lock);
+      return (int)ru->arg;
+    }
+  } else if (g_active) {
+    if (g_nothreads < 0) {
+      char *x = real_getenv ? real_getenv("VSIM_NOTHREADS") : NULL;
+      g_nothreads = (x && x[0] == '1') ? 1 : 0;
+    }
+    if (g_nothreads && t_clock_sim) return EAGAIN;
+  }
+  return real_pthread_create(t, a, fn, arg);
+}
+
 /* ------------------------------------------------------------------ current directory
  * `getcwd:*:1:ENOENT`: the current directory has been deleted (or is unreadable): getcwd() fails.
  * Relative paths still resolve; only a program that asks where it is notices. */
@@ -966,14 +1014,12 @@ int ftruncate(int fd, off_t l) { return ftruncate64(fd, l); }
  * marks that with vsim_thread_clock(1)) for a variable that is NOT set answers "1" instead of
  * NULL. Reference world A leaves it NULL. A library whose result depends on any environment
  * variable therefore disagrees between the two worlds, whatever the variable is called. */
-static char *(*real_getenv)(const char *);
 static int getenv_world(void) {
   static int w = -1;
   if (w < 0) { char *x = real_getenv ? real_getenv("VSIM_ROOT") : NULL; w = (x && x[0] == '/') ? 1 : 0; }
   return w;
 }
 static int g_env_junk = -1;
-static __thread int t_clock_sim;
 char *getenv(const char *name) {
   if (!real_getenv) real_getenv = dlsym(RTLD_NEXT, "getenv");
   char *r = real_getenv ? real_getenv(name) : NULL;
@@ -1022,6 +1068,12 @@ int clock_gettime(clockid_t clk, struct timespec *ts) {
   uint64_t s = g_seed;
   /* the simulated 'now' lies in 2026..2029, so that a large jump crosses 2038-01-19 */
   uint64_t base_s = 1790000000ULL + splitmix(&s) % 100000000ULL;
+  {
+    /* VSIM_CLOCK_BASE: a machine whose clock was never set (year 2001, say) */
+    static long long forced = -1;
+    if (forced == -1) { char *x = real_getenv ? real_getenv("VSIM_CLOCK_BASE") : NULL; forced = x ? atoll(x) : 0; }
+    if (forced > 0) base_s = (uint64_t)forced;
+  }
   uint64_t delta = 1000ULL + splitmix(&s) % 5000000ULL; /* ns per clock read */
   /* a jump backwards (an NTP step, a user setting the clock) only ever shows on the wall clock */
   int64_t jump = g_clock_jump;
